@@ -19,6 +19,7 @@ Prep(q) ==
        theta |-> [j \in 1..q.npts |-> Coverage(n[j], nmax)],
        L |-> [j \in 1..q.npts |-> SlitL(q.a, q.h, q.npts, j)],
        W |-> [j \in 1..q.npts |-> WidthOf("slit", SlitL(q.a, q.h, q.npts, j), q.h)],
+       pi |-> PermSeq(q.perm, q.npts),
        d0 |-> D0(q.a, q.h)]
 
 Slit(q) ==
@@ -31,7 +32,9 @@ Slit(q) ==
 Audit(q) == LET bad == {f \in {"d", "alpha", "chi", "ns"} : ~DClose(q.lib[f], q.ref[f], DTol(6))} IN [ok |-> bad = {}, bad |-> bad]
 
 Step(q) ==
-  CASE q.k = "scen" -> [scenarios |-> Scenarios, adsorbents |-> Adsorbents, adsorbates |-> Adsorbates]
+  CASE q.k = "scen" -> [scenarios |-> Scenarios, adsorbents |-> Adsorbents, adsorbates |-> Adsorbates,
+                        hist_configs |-> HistConfigs, histories |-> SetToSeq(Histories)]
+    [] q.k = "pub" -> [v |-> PublishedPhi(q.kind, q.L, q.a, q.h, q.T)]
     [] q.k = "prep" -> Prep(q)
     [] q.k = "slit" -> Slit(q)
     [] q.k = "judge" -> Judge(q)
